@@ -46,12 +46,12 @@ spec fn stack_rem<V: Clone>(stack: Seq<(&DataNode<V>, Vec<&PrefixTree2>)>) -> Se
 spec fn stack_nodes<V: Clone>(stack: Seq<(&DataNode<V>, Vec<&PrefixTree2>)>) -> nat
     decreases stack.len()
 {
-    if stack.len() == 0 { 0 } else { 1 + nodes(stack.last().0.right) + stack_nodes(stack.drop_last()) }
+    if stack.len() == 0 { 0 } else { 2 + 2 * nodes(stack.last().0.right) + stack_nodes(stack.drop_last()) }
 }
 
 proof fn lemma_stack_push<V: Clone>(stack: Seq<(&DataNode<V>, Vec<&PrefixTree2>)>, e: (&DataNode<V>, Vec<&PrefixTree2>))
     ensures stack_rem(stack.push(e)) == opt1(key_m(derefs(e.1@), e.0.key), e.0.value) + inorder_m(e.0.right, derefs(e.1@)) + stack_rem(stack),
-        stack_nodes(stack.push(e)) == 1 + nodes(e.0.right) + stack_nodes(stack),
+        stack_nodes(stack.push(e)) == 2 + 2 * nodes(e.0.right) + stack_nodes(stack),
 {
     assert(stack.push(e).drop_last() =~= stack);
     assert(stack.push(e).last() == e);
